@@ -112,6 +112,96 @@ def decorator_blocks(repo: Repo):
     return True, ""
 
 
+class _StubV:
+    """the function a stub definition hands to the decorator"""
+
+    def __init__(self, name, qual):
+        self.name, self.qual = name, qual
+
+    def __repr__(self):
+        return "<stub %s>" % self.qual
+
+
+def blocked_stubs(repo: Repo):
+    """(qualified name, file) of every definition decorated with not_implemented"""
+    out = []
+    for rel, tree in sorted(repo.modules.items()):
+        if "/test/" in rel:
+            continue
+        for node in tree.body:
+            if isinstance(node, ast.FunctionDef) and is_blocked_def(node):
+                out.append((node.name, node.name, rel))
+            if isinstance(node, ast.ClassDef):
+                for sub in node.body:
+                    if isinstance(sub, ast.FunctionDef) and is_blocked_def(sub):
+                        out.append((sub.name, node.name + "." + sub.name, rel))
+    return out
+
+
+def interpreted_decorator(repo: Repo, rep: Report):
+    """B1, second half: the wrapper is *interpreted* once per stub (the wrapped function known by its name): whatever it computes on
+    the way, what comes out must be NetworkXNotImplemented - not a KeyError from a lookup made for the message, not a return."""
+    from .ordertype import OrderType
+    from .absint import Interp, Const, TupleV, DictObj, AbstractRaise, Unsupported, BoundMethod
+    from .query_check import QueryWorld, SHAPES
+
+    class W(QueryWorld):
+        def load_attr(self, ip, obj, attr, node):
+            if isinstance(obj, _StubV):
+                if attr in ("__name__", "__qualname__"):
+                    return Const(obj.name if attr == "__name__" else obj.qual)
+                if attr == "__doc__":
+                    return Const(None)
+                raise Unsupported(node, "attribute %s of the wrapped function" % attr)
+            if isinstance(obj, Const) and isinstance(obj.v, (str, bytes)):
+                return BoundMethod(obj, attr)
+            return super().load_attr(ip, obj, attr, node)
+
+        def resolve_name(self, ip, name, node):
+            if name == "nx":
+                from .absint import Opaque
+                return Opaque("module:nx")
+            return super().resolve_name(ip, name, node)
+
+    outer = repo.get(DECORATORS, "not_implemented")
+    inner = [n for n in ast.walk(outer) if isinstance(n, ast.FunctionDef) and n is not outer]
+    stubs = blocked_stubs(repo)
+    if not inner or not stubs:
+        return 0
+    w_fn = inner[0]
+    params = [a.arg for a in w_fn.args.args]
+    cls = "DynGraph"
+    n = 0
+    for name, qual, rel in stubs:
+        world = W(cls, SHAPES[False][0], {}, repo.class_methods(CLASSES[cls], cls), repo.functions(DECORATORS))
+        world.current_rel = DECORATORS
+        ip = Interp(world, OrderType([["t"]], [], 2), max_depth=6)
+        env = {}
+        if params:
+            env[params[0]] = _StubV(name, qual)
+        for p_ in params[1:]:
+            env[p_] = Const(None)
+        if w_fn.args.vararg:
+            env[w_fn.args.vararg.arg] = TupleV([])
+        if w_fn.args.kwarg:
+            env[w_fn.args.kwarg.arg] = DictObj()
+        n += 1
+        try:
+            ip.call_function(w_fn, env)
+            outcome = "returns"
+        except AbstractRaise as r:
+            outcome = r.exc
+        except Unsupported as ex:
+            rep.stats["B1.interpretation"] = "abstained for %s: %s" % (qual, ex)       # the syntactic half of B1 stands alone
+            continue
+        if outcome != "NetworkXNotImplemented":
+            rep.finding("B1.decorator", repo.construct(DECORATORS, "not_implemented"), "stub:%s:%s" % (qual, outcome),
+                        "for the blocked %s (%s) the wrapper %s instead of raising NetworkXNotImplemented" % (
+                            qual, rel, "returns normally" if outcome == "returns" else "raises %s" % outcome), line=w_fn.lineno)
+    rep.ob("B1.decorator", repo.construct(DECORATORS, "not_implemented"), "wrapper interpreted for each of the %d blocked stubs: NetworkXNotImplemented" % n)
+    return n
+
+
 def is_blocked_def(fn):
     return any("not_implemented" in src(d) for d in fn.decorator_list)
 
@@ -298,6 +388,7 @@ def check_blocking(repo: Repo, rep: Report):
     n_inst += 1
     if not ok:
         rep.finding("B1.decorator", repo.construct(DECORATORS, "not_implemented"), "conditional-block", why)
+    n_inst += interpreted_decorator(repo, rep)
     # ---- positive control: stock networkx must show its mutators ----------------------
     class _Stock:
         cls = "DynGraph"
